@@ -35,6 +35,9 @@ INT, BOOL, CHAR = "Int", "Bool", "Char"
 LIST = "List Int"
 STR = "List Char"
 LSTR = "List (List Char)"
+OPAQUE = "α"          # an object the function only passes around or reads declared attributes of
+LOPAQUE = "List α"
+OPTINT = "Option Int"  # an attribute that is an int or None
 
 
 def is_list(t):
@@ -68,13 +71,15 @@ def char_lit(c):
 
 
 class T:
-    def __init__(self, env, ret, partial=False):
+    def __init__(self, env, ret, partial=False, attrs=None, local_types=None):
         self.env = dict(env)
         self.ret = ret
         self.partial = partial
+        self.attrs = attrs or {}              # "a.b" -> type: attribute chains of opaque objects (function parameters)
+        self.local_types = local_types or {}  # declared types of locals initialised with an empty literal
 
     def sub(self, extra):
-        return T({**self.env, **extra}, self.ret, self.partial)
+        return T({**self.env, **extra}, self.ret, self.partial, self.attrs, self.local_types)
 
     # ---- expressions: returns (lean_text, type)
     def e(self, n):
@@ -120,13 +125,23 @@ class T:
                 raise TranslateError("empty literal (type unknown)")
             if all(t == parts[0][1] for _, t in parts) and parts[0][1] in (INT, CHAR, STR):
                 return "[" + ", ".join(p for p, _ in parts) + "]", list_of(parts[0][1])
-            return "(" + ", ".join(p for p, _ in parts) + ")", " × ".join(t for _, t in parts)
+            return "(" + ", ".join(p for p, _ in parts) + ")", " × ".join(
+                (f"({t})" if " " in t and not t.startswith("(") else t) for _, t in parts)
         if isinstance(n, ast.Call):
             return self.call(n)
         if isinstance(n, (ast.ListComp, ast.GeneratorExp)):
             return self.comprehension(n)
         if isinstance(n, ast.Subscript):
             return self.subscript(n)
+        if isinstance(n, ast.Attribute):
+            chain, cur = [], n
+            while isinstance(cur, ast.Attribute):
+                chain.append(cur.attr)
+                cur = cur.value
+            key = ".".join(reversed(chain))
+            if isinstance(cur, ast.Name) and self.env.get(cur.id) == OPAQUE and key in self.attrs:
+                return f"(attr_{key.replace('.', '_')} {cur.id})", self.attrs[key]
+            raise TranslateError(f"attribute {key}")
         raise TranslateError(f"expression {type(n).__name__}")
 
     def binop(self, n):
@@ -177,6 +192,10 @@ class T:
                 return f"({a} {sym} {b})", BOOL
             if sym:
                 return f"(decide ({a} {sym} {b}))", BOOL
+        if isinstance(op, (ast.Eq, ast.NotEq)) and {ta, tb} == {OPTINT, INT}:
+            o, i = (a, b) if ta == OPTINT else (b, a)
+            c = f"({o} == some {i})"
+            return (f"(!{c})" if isinstance(op, ast.NotEq) else c), BOOL
         if isinstance(op, (ast.Eq, ast.NotEq)):
             neg = isinstance(op, ast.NotEq)
             # a one-character str compared with a str constant
@@ -327,6 +346,13 @@ class T:
             if tail is not None:
                 raise TranslateError("raise inside a loop body")
             return "none"
+        if isinstance(s, ast.Assign) and len(s.targets) == 1 and isinstance(s.targets[0], ast.Name) \
+                and isinstance(s.value, (ast.List, ast.Tuple)) and not s.value.elts:
+            name = s.targets[0].id
+            if name not in self.local_types:
+                raise TranslateError(f"empty literal for {name} (no declared type)")
+            t = self.local_types[name]
+            return f"let {name} : {t} := []\n  {self.sub({name: t}).block(rest, tail)}"
         if isinstance(s, ast.Assign) and len(s.targets) == 1 and isinstance(s.targets[0], ast.Name):
             v, t = self.e(s.value)
             name = s.targets[0].id
@@ -367,8 +393,30 @@ class T:
             a = self.block(s.body + ([] if _ends(s.body) else rest), tail)
             b = self.block((s.orelse or []) + ([] if (s.orelse and _ends(s.orelse)) else rest), tail)
             return f"if {c} then\n  {a}\n  else\n  {b}"
+        enum = (isinstance(s, ast.For) and isinstance(s.target, ast.Tuple) and len(s.target.elts) == 2
+                and all(isinstance(x, ast.Name) for x in s.target.elts) and isinstance(s.iter, ast.Call)
+                and isinstance(s.iter.func, ast.Name) and s.iter.func.id == "enumerate" and len(s.iter.args) == 1
+                and not s.iter.keywords and not s.orelse)
+        if enum:
+            # for i, x in enumerate(xs): body   ==>   fold over xs.zipIdx, i = position, x = element
+            xs, txs = self.e(s.iter.args[0])
+            if not is_list(txs):
+                raise TranslateError("enumerate over non-list")
+            iv, xv = s.target.elts[0].id, s.target.elts[1].id
+            inner = ast.For(target=ast.Name(id="__p", ctx=ast.Store()), iter=ast.Name(id="__zipidx", ctx=ast.Load()),
+                            body=s.body, orelse=[])
+            return self.sub({"__zipidx": f"List ({elem(txs)} × Nat)"})._for(inner, rest, tail, f"({xs}.zipIdx)",
+                                                                           pair=(iv, xv, elem(txs)))
         if isinstance(s, ast.For) and isinstance(s.target, ast.Name) and not s.orelse:
-            it, tit = self.e(s.iter)
+            return self._for(s, rest, tail)
+        raise TranslateError(f"statement {type(s).__name__}")
+
+    def _for(self, s, rest, tail, iter_text=None, pair=None):
+        if True:
+            if iter_text is None:
+                it, tit = self.e(s.iter)
+            else:
+                it, tit = iter_text, self.env["__zipidx"]
             if not is_list(tit):
                 raise TranslateError("for over non-list")
             v = s.target.id
@@ -395,11 +443,15 @@ class T:
                 return "(" + ", ".join(state) + ")"
 
             binds = "".join(f"let {x} : {t} := {proj(k)}\n    " for k, (x, t) in enumerate(zip(state, tys)))
-            body = self.sub({v: elem(tit)}).block(s.body, tail=tup)
+            if pair is not None:
+                iv, xv, tx = pair
+                binds += f"let {xv} : {tx} := {v}.1\n    let {iv} : Int := (({v}.2 : Nat) : Int)\n    "
+                body = self.sub({xv: tx, iv: INT}).block(s.body, tail=tup)
+            else:
+                body = self.sub({v: elem(tit)}).block(s.body, tail=tup)
             after = "".join(f"let {x} : {t} := {proj(k)}\n  " for k, (x, t) in enumerate(zip(state, tys)))
             return (f"let st : {st_ty} := {it}.foldl (fun (st : {st_ty}) ({v} : {elem(tit)}) =>\n    {binds}{body}) "
                     f"({', '.join(state)})\n  {after}{self.block(rest, tail)}")
-        raise TranslateError(f"statement {type(s).__name__}")
 
 
 def _is_sys_exit(s):
@@ -439,7 +491,7 @@ def _target_name(t):
     raise TranslateError("assignment target")
 
 
-def translate_function(fn, lean_name, arg_types, ret, partial=False):
+def translate_function(fn, lean_name, arg_types, ret, partial=False, attrs=None, local_types=None):
     fn = getattr(fn, "__wrapped__", fn)  # functools.lru_cache & co.
     src = textwrap.dedent(inspect.getsource(fn))
     node = ast.parse(src).body[0]
@@ -449,8 +501,11 @@ def translate_function(fn, lean_name, arg_types, ret, partial=False):
     if len(names) != len(arg_types):
         raise TranslateError("arity")
     env = dict(zip(names, arg_types))
-    body = T(env, ret, partial).block(node.body)
+    body = T(env, ret, partial, attrs, local_types).block(node.body)
     binders = " ".join(f"({n} : {t})" for n, t in zip(names, arg_types))
+    if attrs or any(OPAQUE in t for t in arg_types):
+        binders = "{α : Type} " + "".join(f"(attr_{k.replace('.', '_')} : α → {t}) " for k, t in (attrs or {}).items()) \
+            + binders
     where = f"{inspect.getsourcefile(fn).split('/src/')[-1]}:{fn.__name__}"
     rt = f"Option ({ret})" if partial else ret
     return f"/-- translated from `{where}` -/\ndef {lean_name} {binders} : {rt} :=\n  {body}\n"
